@@ -157,6 +157,7 @@ func c11Build(c c11Case, structType reflect.Type) *c11World {
 		opts = append(opts, jet.InDevelopmentMode())
 	}
 	s, l := jetrun.NewSet(files, opts...)
+	c10Globals(s)
 	for k, f := range failFuncs() {
 		s.AddGlobalFunc(k, f)
 	}
